@@ -9,8 +9,8 @@ from .. import unitcheck as U
 
 ID = "C17"
 LEVEL = "exploration"
-RULE = ("all strings of 1..L symbols over a 34-symbol alphabet (L=3 quick, 4 thorough): troublesome bytes/characters "
-        "(blank, tab, LF, quotes, backslash, $, `, *, #, ~, =, !, non-ASCII, U+00A0, DEL, invalid UTF-8), every other "
+RULE = ("all strings of 1..L symbols over a 36-symbol alphabet (L=3 quick, 4 thorough): troublesome bytes/characters "
+        "(blank, tab, LF, quotes, backslash, $, `, *, #, ~, =, !, non-ASCII, U+00A0, the C1 controls U+0085 and U+009B, DEL, invalid UTF-8), every other "
         "ASCII character bash gives a meaning to (? [ ] { } , ; & | < > ( )) and '-'; option- and assignment-shaped "
         "arguments (-XY, --XY, --X=Y, --aX=Y, -X=Y, X=Y, aXaY, /X/Y, each also after a '--' argument) for all X, Y of "
         "<=1 symbol; all lists of <=3 one-symbol strings and all pairs of strings of <=2 symbols (pairs over the 20 "
